@@ -62,7 +62,8 @@ def run(chk):
                 "that is committed honestly - all commitments nonzero); without a group order wide enough for the square of an |n|-bit root (D49, KNOWN FINDING: the model checks the design "
                 "the property demands, GroupWide = TRUE, and shows that the code as it is, GroupWide = FALSE, violates Sound; the forgery - roots of s + j*M for non-square bases of a genuine "
                 "340-bit modulus - is replayed and reported as KNOWN-FINDING); and with generators that do not depend on the prover's group prime (D50: a prime dividing a^30 - b^31 "
-                "gives log_g h). "
+                "gives log_g h); an honest proof is searched for the distinguisher of D53 (is the multiplier of a step sent as a copy of the base-power commitment?) and must not reveal a "
+                "factor of n; BuildGroup on every small safe prime must return (D57). "
                 "Replay: every scenario is built for real by a cheating prover inside the package (tag verif) for the representatives 0, GroupPrime, 2*GroupPrime - a modulus "
                 "(2a^3+1)(2b+1) and bases with Jacobi symbol -1 - sent through JSON and given to the unmodified VerifyProof. (4) ZkProof.tla (Group variant): the representation-proof engine of the Camenisch-Michels sub-proofs in the concrete group "
                 "zkproof.BuildGroup(23) - Pedersen, multiplication-type, constant-left-hand-side and single-base statements with prover-supplied bases over all residues "
